@@ -193,6 +193,10 @@ def creation_cases(text, res, dl):
     for path, node, parent, ref in positions(doc_a):
         if any(step[0] == "m" for step in path):
             continue
+        if parent is not None and node is not None and \
+                not is_container(node) and not is_set(parent):
+            _beneath_scalar(text, path, node, res)
+            continue
         if not (is_map(node) or is_seq(node) or (node is None and parent
                                                  is not None)):
             continue
@@ -231,6 +235,65 @@ def creation_cases(text, res, dl):
         if dl.expired():
             res.truncated = True
             return
+
+
+def _beneath_scalar(text, path, node, res):
+    """A path continuing beneath an existing (non-null) scalar cannot be
+    created: YAMLPathException, and nothing changes."""
+    from yamlpath.exceptions import YAMLPathException
+    base = []
+    for step in path:
+        if step[0] == "i":
+            base.append(("index", step[1]))
+        elif len(step) > 2 and str(step[2]) != "":
+            base.append(("key", str(step[2])))
+        else:
+            return
+    for tail in ([("key", "n")], [("index", 0)], [("key", "n"), ("key", "m")]):
+        ptext = gpaths.render(base + tail, ".")
+        for entry in ("set", "get-default"):
+            doc, _ = gdocs.load(text)
+            before = snap(doc)
+            proc = real.processor(doc)
+            res.evaluations += 1
+            case = {"doc": text, "path": ptext, "entry": entry,
+                    "beneath": "scalar"}
+            try:
+                if entry == "set":
+                    proc.set_value(real.ypath(ptext), 7)
+                else:
+                    list(proc.get_nodes(real.ypath(ptext), mustexist=False,
+                                        default_value="zz"))
+                outcome = "returned"
+            except YAMLPathException:
+                outcome = "refused"
+            except Exception as exc:
+                etype, frame, src = exc_site(exc)
+                res.fail({"clause": "creation-no-crash", "exc": etype,
+                          "frame": frame}, case, "%s: %s" % (etype, exc))
+                continue
+            if snap(doc) != before:
+                res.fail({"clause": "existing-scalar-unchanged",
+                          "scalar": "falsy" if not node else "truthy",
+                          "outcome": outcome}, case,
+                         "before %s\nafter  %s" % (before[:300],
+                                                   snap(doc)[:300]))
+                continue
+            res.nontrivial()
+            res.label("beneath-scalar:" + outcome)
+
+
+def _distinct_new_containers(doc):
+    """No container object may occupy two positions unless it is anchored
+    (a creation must not alias the nodes it builds)."""
+    seen = {}
+    from vp.model.plain import anchor_of
+    for path, node, parent, ref in positions(doc):
+        if is_container(node) and anchor_of(node) is None:
+            if id(node) in seen and seen[id(node)] != path[:len(seen[id(node)])]:
+                return (seen[id(node)], path)
+            seen.setdefault(id(node), path)
+    return None
 
 
 def _node_at(doc, path):
@@ -275,6 +338,12 @@ def _creation_one(text, prefix_path, steps, segs, ptext, entry, res):
                   "tail": str(min(len(steps), 3))}, case,
                  "expected %s\ngot      %s" % (json.dumps(pattern),
                                                json.dumps(after)))
+        return
+    shared = _distinct_new_containers(doc)
+    if shared is not None:
+        res.fail({"clause": "created-nodes-are-distinct-objects",
+                  "entry": entry}, case,
+                 "one container object sits at %r and %r" % shared)
         return
     if got is not None and (len(got) != 1 or
                             cscalar(got[0].node) != cscalar(value)):
